@@ -363,3 +363,66 @@ def shared_provider(tid: int, seed: int) -> dict:
     wa.cleanup()
     wb.cleanup()
     return tr
+
+
+def dst_grid(tid: int, seed: int) -> dict:
+    """A lone DestHandler in acknowledged mode fed the segments of a grid-segmented file (what a real source sends and
+    re-sends): any arrival order, losses, duplicates, Metadata and EOF at any position, None-calls, NAK-timer expiries;
+    both NAK modes; maximum packet lengths that allow 1, 2, 3 or many segment requests per NAK PDU (C05 / C06)."""
+    rng = random.Random(seed)
+    seg = rng.choice([1, 2, 4])
+    nseg = rng.randint(1, 6)
+    size = seg * nseg - rng.choice([0, 0, seg - 1 if seg > 1 else 0])
+    idw, qw, crc = rng.choice([1, 2]), rng.choice([1, 2]), rng.random() < 0.3
+    nak_base = 4 + 2 * idw + qw + 1 + 8 + (2 if crc else 0)
+    max_pkt = rng.choice([nak_base + 8 * k for k in (1, 2, 3)] + [512, 512])
+    cfg = mkcfg(mode="ACK", closure=rng.random() < 0.5, segLen=seg, maxPkt=max_pkt, crc=crc, chk=rng.choice(["CRC32", "CRC32C", "NULL"]),
+                sIdW=idw, dIdW=idw, seqW=qw, immNak=rng.random() < 0.5, nakLim=rng.choice([2, 3, 4]), ackLim=3,
+                file=[rng.randrange(256) for _ in range(size)], dstShape=rng.choice(["file", "existing", "dir"]),
+                dstOld=[9] * rng.choice([0, 30]), disp=rng.random() < 0.5)
+    w = World(cfg)
+    content = bytes(cfg["file"])
+    h = wire_hdr(cfg, "TR", rng.choice([0, 7]), "ACK")
+    md = dict(h=h, t="MD", closure=cfg["closure"], chkType=cfg["chk"], size=size, srcName="s/" + cfg["srcName"],
+              dstName="d/" + cfg["dstName"], srcBase=cfg["srcName"], opts=[])
+    segs = [dict(h=h, t="FD", off=o, data=list(content[o:o + seg])) for o in range(0, size, seg)]
+    eof = dict(h=h, t="EOF", cond="NO_ERROR", size=size, chk=ref_checksum(cfg["chk"], content), floc=dict(set=False, v=[]))
+    first = [md] + segs + [eof]
+    # initial pass: drop some, swap some; Metadata / EOF may move
+    stream = [p for p in first if rng.random() > 0.25]
+    if rng.random() < 0.5:
+        rng.shuffle(stream)
+    elif len(stream) > 2 and rng.random() < 0.5:
+        i = rng.randrange(len(stream) - 1)
+        stream[i], stream[i + 1] = stream[i + 1], stream[i]
+    stream += [p for p in first if rng.random() < 0.15]   # duplicates
+    for p in stream:
+        w.call("D", "fsm", w.conc(p))
+        if rng.random() < 0.4:
+            w.call("D", "fsm", None)
+    # then behave like a source: answer NAKs (sometimes lossy), poll, let the NAK timer expire
+    for _ in range(rng.randint(4, 30)):
+        if w.dst.state.name == "IDLE":
+            break
+        e = w.call("D", "fsm", None)
+        naks = [o for o in e["out"] if o["t"] == "NAK"]
+        for n in naks:
+            for s, t in n["reqs"]:
+                if rng.random() < 0.2:
+                    continue
+                if (s, t) == (0, 0):
+                    w.call("D", "fsm", w.conc(md))
+                else:
+                    for o in range(s - s % seg, t, seg):
+                        if rng.random() < 0.85:
+                            w.call("D", "fsm", w.conc(dict(h=h, t="FD", off=o, data=list(content[o:o + seg]))))
+        if any(o["t"] == "FIN" for o in e["out"]) and rng.random() < 0.7:
+            w.call("D", "fsm", w.conc(dict(h=h, t="ACK", acked="FIN", cond="NO_ERROR", tstat="ACTIVE")))
+        if not naks and rng.random() < 0.5:
+            Clock.now += rng.choice([400, 1001])
+        if rng.random() < 0.1 and eof not in stream:
+            w.call("D", "fsm", w.conc(eof))
+            stream.append(eof)
+    tr = w.trace(tid, "dst")
+    w.cleanup()
+    return tr
